@@ -421,7 +421,16 @@ func c18SinglePass(c *an.Ctx, fn *ssa.Function) {
 		hay  ssa.Value
 	}
 	var reps []rep
-	an.Instrs(fn, func(in ssa.Instruction) {
+	var all []ssa.Instruction
+	for _, m := range familyOf(c.P, fn, 2) {
+		all = append(all, instrsOf(m)...)
+	}
+	each := func(f func(ssa.Instruction)) {
+		for _, in := range all {
+			f(in)
+		}
+	}
+	each(func(in ssa.Instruction) {
 		call, ok := in.(*ssa.Call)
 		if !ok {
 			return
@@ -437,7 +446,7 @@ func c18SinglePass(c *an.Ctx, fn *ssa.Function) {
 			reps = append(reps, rep{call, call.Call.Args[1]})
 		}
 	})
-	c.Floor("H2", "string replacement calls in jobScript", len(reps), 1)
+	c.Floor("H2", "string replacement calls in jobScript or its private helpers", len(reps), 1)
 	isRep := map[ssa.Value]bool{}
 	for _, r := range reps {
 		isRep[r.call] = true
